@@ -826,7 +826,7 @@ func (f *g2lFn) assignedOuter(nodes []ast.Node, before token.Pos) []*types.Var {
 				}
 				if sel, ok := n.Fun.(*ast.SelectorExpr); ok {
 					if id, ok := sel.X.(*ast.Ident); ok {
-						if tv, ok := f.p.info.Types[id]; ok && tv.Type != nil && isBytesBuffer(tv.Type) && strings.HasPrefix(sel.Sel.Name, "Write") {
+						if tv, ok := f.p.info.Types[id]; ok && tv.Type != nil && (isBytesBuffer(tv.Type) || f.isAccum(tv.Type)) && strings.HasPrefix(sel.Sel.Name, "Write") {
 							add(id)
 						}
 						// p.printf(…) / p.Truncate(n) write to the buffer embedded in p
@@ -857,6 +857,10 @@ func (f *g2lFn) assignedOuter(nodes []ast.Node, before token.Pos) []*types.Var {
 				}
 				if src0 := strings.Join(strings.Fields(show(n.Fun)), ""); (src0 == "io.Copy" || src0 == "fmt.Fprintf" || f.u.mutCalls[src0] != "") && len(n.Args) >= 1 {
 					add(n.Args[0])
+				} else if src0 == "binary.BigEndian.PutUint32" && len(n.Args) == 2 {
+					if se, ok := n.Args[0].(*ast.SliceExpr); ok {
+						add(se.X)
+					}
 				}
 				// copy(dst[...], src) assigns to dst
 				if id, ok := n.Fun.(*ast.Ident); ok && id.Name == "copy" && len(n.Args) == 2 {
@@ -1318,6 +1322,15 @@ func (f *g2lFn) exprStmtCall(c *ast.CallExpr) ([]string, bool) {
 			return append(b.lines, fmt.Sprintf("let %s := %s ++ %s", f.name(dst), f.name(dst), txt)), true
 		}
 	}
+	if src0 == "binary.BigEndian.PutUint32" && len(c.Args) == 2 {
+		if se, ok := c.Args[0].(*ast.SliceExpr); ok && se.Low == nil && se.High == nil {
+			if dst, ok := se.X.(*ast.Ident); ok {
+				v := f.expr(&b, c.Args[1])
+				f.pure = false
+				return append(b.lines, fmt.Sprintf("let %s ← bePut32 %s %s", f.name(dst), f.name(dst), v)), true
+			}
+		}
+	}
 	if fn, ok := f.u.mutCalls[src0]; ok && len(c.Args) == 1 {
 		if dst, ok := c.Args[0].(*ast.Ident); ok {
 			return []string{fmt.Sprintf("let %s := %s %s", f.name(dst), fn, f.name(dst))}, true
@@ -1351,7 +1364,7 @@ func (f *g2lFn) exprStmtCall(c *ast.CallExpr) ([]string, bool) {
 		}
 	}
 	if sel, ok := c.Fun.(*ast.SelectorExpr); ok {
-		if id, ok := sel.X.(*ast.Ident); ok && isBytesBuffer(f.typeOf(id)) && len(c.Args) == 1 {
+		if id, ok := sel.X.(*ast.Ident); ok && (isBytesBuffer(f.typeOf(id)) || f.isAccum(f.typeOf(id))) && len(c.Args) == 1 {
 			x := f.expr(&b, c.Args[0])
 			switch sel.Sel.Name {
 			case "WriteString", "Write":
